@@ -867,23 +867,50 @@ func (m *streeModel) ruleRootFlow(c *Ctx) {
 		}
 		name := fnName(fn)
 		c.sawFn(name)
-		// the modifying call and its node result
+		// the modifying call and its node result: found by role — in Add/Replace/Remove or a helper they
+		// delegate to, the call that is handed the current root and returns a node first
 		var res ssa.Value
 		var mod *ssa.Call
-		allInstrs(fn, func(in ssa.Instruction) {
-			if call, ok := in.(*ssa.Call); ok {
-				if cal := staticCallee(&call.Call); cal != nil && cal.Name() == t[1] {
-					mod = call
-					for _, r := range referrersOf(call) {
-						if ex, ok := r.(*ssa.Extract); ok && ex.Index == 0 {
-							res = ex
-						}
+		entry := fn
+		for _, f := range buildCallScope(entry).fns {
+			if mod != nil {
+				break
+			}
+			allInstrs(f, func(in ssa.Instruction) {
+				call, ok := in.(*ssa.Call)
+				if !ok || mod != nil {
+					return
+				}
+				cal := staticCallee(&call.Call)
+				if cal == nil || cal.Blocks == nil {
+					return
+				}
+				tup, ok := call.Type().(*types.Tuple)
+				if !ok || tup.Len() < 2 || !isNamedOrigin(tup.At(0).Type(), m.nodeT) {
+					return
+				}
+				takesRoot := false
+				for _, a := range call.Call.Args {
+					if _, fld := loadedField(a); fld != nil && sameField(fld, m.rootF) {
+						takesRoot = true
 					}
 				}
-			}
-		})
+				if !takesRoot {
+					return
+				}
+				for _, r := range referrersOf(call) {
+					if ex, ok := r.(*ssa.Extract); ok && ex.Index == 0 {
+						res = ex
+					}
+				}
+				if res != nil {
+					mod, fn = call, f
+				}
+			})
+		}
+		_ = t
 		if mod == nil || res == nil {
-			c.undecided("R-ROOT-FLOW", name, fn.Pos(), "modifying call not found")
+			c.undecided("R-ROOT-FLOW", name, entry.Pos(), "modifying call not found")
 			continue
 		}
 		var derives func(v ssa.Value, at ssa.Instruction, depth int) (bool, string)
